@@ -2,6 +2,7 @@
 # usage: scripts_mut.sh <file> <sed-expr> <govc verify args...>   (scratch worktree at /tmp/mut)
 set -e
 f=$1; sedx=$2; shift 2
+[ -d /tmp/mut ] || { git -C /repo worktree prune; git -C /repo worktree add -q --detach /tmp/mut HEAD; }
 cd /tmp/mut && git checkout -q -- . && git clean -fdq && git checkout -q --detach $(git -C /repo rev-parse HEAD)
 (cd /repo && find . -name zz_contracts_verif.go) | while read c; do cp /repo/$c /tmp/mut/$c; done
 sed -i "$sedx" $f
